@@ -79,6 +79,17 @@ CHECKS = {
    design_ref="DESIGN.md §7 C05",
    technique="Lean 4 soundness theorems for optimality certificates + per-run exact certificate checking of the real solver output",
    note=BASE_NOTE + " Certificate tolerances (relative to system scale): 1e-9 inv/nnls, 1e-5 lsq, 1e-6 lsq_linear."),
+ "C16": dict(
+   category="proof",
+   text="Theorems: the square-root-free opening-angle test decides a.b <= c*|a||b| (cosLe_spec), is monotone in the limit, and at the "
+        "limit pi holds exactly for antiparallel pairs (Lagrange identity); without a limit no junction is flagged; an interface is dropped "
+        "iff both end junctions are flagged and the rest keep their order; the re-alignment puts -1 exactly at excluded positions and the "
+        "k-th remaining position holds the k-th solver value, for every list. Per run: flagged set and unknown list compared exactly with "
+        "the model (cos(limit) as a rational, pairs within 1e-9 of the limit rejected), re-alignment compared position by position, flagged "
+        "junctions recomputed from closed-form tangents (margin 0.1 rad), restricted system solved independently, default limit excludes nothing.",
+   design_ref="DESIGN.md §7 C16",
+   technique="Lean 4 theorems over Rat model of the angle test and re-alignment + differential check against ForceMatrix",
+   note=BASE_NOTE + " arccos/cos are IEEE functions; the exact model decision uses the float's rational cos(limit)."),
 }
 
 NOT_APPLICABLE = {
